@@ -199,6 +199,30 @@ def check(ctx):
               "sampling set = variables 1 .. support", "as_unigen_string builds the sampling set as %s" % ss[:1])
     from . import C27
     C27.sampling_set_lines(ctx, rule="C03.sampling-set")
+    # the public save_cnf path (main.__generate_cnf): the sampling set must determine every other variable -- either the
+    # explicit list of the non-derived factors' variables, or the whole trial-variable prefix
+    gc = ctx.fn("main:__generate_cnf")
+    cs = [c for c in calls(gc.node) if call_attr(c) == "as_unigen_string"]
+    ctx.require(len(cs) == 1, "__generate_cnf: as_unigen_string call not found")
+    kw = {k.arg: ast.unparse(k.value) for k in cs[0].keywords}
+    ok = (kw == {"sampled_variables": "[Var(n) for n in block.support_variables()]"}) or (kw == {"support_set_length": "block.variables_per_sample()"})
+    ctx.check(ok and not cs[0].args, R, gc, "save_cnf sampling set %s" % kw, "save_cnf lists the variables of the non-derived factors (or the whole trial-variable prefix) as the sampling set",
+              "__generate_cnf calls as_unigen_string(%s): the sampling set is neither the list block.support_variables() nor the prefix 1..variables_per_sample(), "
+              "so models no longer project one-to-one onto it" % kw, cs[0])
+    sv = ctx.fn("block:Block.support_variables")
+    Fs = Facts(sv)
+    body = [ast.unparse(x) for x in statements(sv.node)]
+    ctx.check(Fs.iters()[:2] == ["range(self.trials_per_sample())", "self.act_design"] and "vars += self.factor_variables_for_trial(f, t + 1)" in body and
+              any(b.startswith("if not isinstance(f, DerivedFactor):") for b in body), R, sv, "support variables", "every trial x every non-derived encoded factor contributes its variables",
+              "Block.support_variables changed: %s" % Fs.iters()[:2])
+    uv = ctx.fn("cnf:CNF.as_unigen_string")
+    tests = [ast.unparse(x.test) for x in statements(uv.node) if isinstance(x, ast.If)]
+    ctx.check("support_set_length is not None and sampled_variables is not None" in tests and "support_set = sampled_variables" in [ast.unparse(x) for x in statements(uv.node)], R, uv,
+              "explicit list honoured", "an explicit variable list is used as given; giving both forms is refused", "as_unigen_string no longer honours sampled_variables as given")
+    # exact cardinality is part of 'one model per sequence' (a valid sequence must keep its model): C10's clauses
+    from ..report import include
+    if not ctx.is_control:
+        include(ctx, "C10")
 
     mod = sys.modules[__name__]
     control(ctx, mod, "pop_count forgets to zero its padding",
@@ -210,7 +234,7 @@ def check(ctx):
             lambda s: variants.in_function(s, "sweetpea/_internal/constraint.py", "Cross.apply", "range(len(state_vars))))", "range(len(state_vars) - 1)))"), "C03.constraint-aux")
     ctx.min_instances("C03.defined", 8)
     ctx.min_instances("C03.tseitin", 6)
-    ctx.min_instances("C03.sampling-set", 8)
+    ctx.min_instances("C03.sampling-set", 11)
 
 
 def _cc0(F):
